@@ -47,10 +47,25 @@ theorem C01_timebase_identity (v : Int) (h : 48 ≤ v) (h2 : v ≤ 32767) : read
   · omega
   · split <;> omega
 
-/-- selecting track `no` materialises every track up to it, so `tracks.len()` covers it -/
+/-- selecting track `no` materialises every track up to the (capped) number, so `tracks.len()` covers `cur_track` -/
 theorem C01_tracks_materialised (len no : Nat) :
-    no < changeCurTrackLen len no ∧ len ≤ changeCurTrackLen len no := by
+    changeCurTrackNo no < changeCurTrackLen len no ∧ len ≤ changeCurTrackLen len no := by
   unfold changeCurTrackLen; split <;> omega
+
+/-- the number of tracks fits the header's 16-bit count after every track selection: the premise `tracks.length < 65536` of
+    `C01_container` is an invariant of every run, whatever track numbers the program names.  (Before the repair the number was
+    taken as written: `TR=65535` made 65536 chunks under a header that counts 0.) -/
+theorem C01_track_count_fits (nos : List Nat) : 1 ≤ nos.foldl changeCurTrackLen 1 ∧ nos.foldl changeCurTrackLen 1 < 65536 := by
+  suffices h : ∀ len, 1 ≤ len → len < 65536 → 1 ≤ nos.foldl changeCurTrackLen len ∧ nos.foldl changeCurTrackLen len < 65536 from
+    h 1 (by omega) (by omega)
+  induction nos with
+  | nil => intro len h1 h2; exact ⟨h1, h2⟩
+  | cons n r ih =>
+    intro len h1 h2
+    simp only [List.foldl_cons]
+    apply ih
+    · unfold changeCurTrackLen; split <;> omega
+    · unfold changeCurTrackLen changeCurTrackNo; split <;> split <;> omega
 
 /-! Frame facts regenerated from the source on every run: the time base has one writer (the
     clamping `read_timebase`) and the default 96, tracks are only ever added by
